@@ -25,5 +25,22 @@ for d in sorted(os.listdir(".")):
         if not ok2:
             print("WARNING: %s does not build:\n%s" % (d, out2[-1500:]))
 ok3, out3, _ = vlib.build_runner(race=True)
+# warm the Print-Assumptions cache of every property (keyed by the content of the dependency closure)
+import concurrent.futures, importlib
+sys.path.insert(0, "props")
+def warm(pid):
+    try:
+        mod = importlib.import_module(pid.lower())
+        files = getattr(mod, "PROP_FILES", [])
+        names = vlib.theorem_names(files)
+        closure = vlib.dep_closure(["Properties/%s.vo" % f for f in files])
+        pa, _ = vlib.cached_print_assumptions(files, names, closure)
+        return pid, (pa is not None)
+    except Exception as e:
+        return pid, repr(e)
+with concurrent.futures.ThreadPoolExecutor(max_workers=8) as ex:
+    for pid, r in ex.map(warm, ["C%02d" % i for i in range(1, 21)]):
+        if r is not True:
+            print("WARNING: assumptions of", pid, "not cached:", r)
 sys.exit(0 if ok else 1)
 PY
